@@ -67,7 +67,7 @@ def l1_oracle(pid, methods, impl, run, desc):
             want_err = "pass" if errm is None else ("always:%s" % errm.name if errm.on == "always" else "error:%s" % errm.name)
             # an arm whose shape the canonicaliser does not recognise is not evidence of a violation: it shows up as a
             # disagreement with the model (reported as such) and its behaviour is decided by the L2 run
-            unrecognised = ("unparsed", "unparsed_args", "unexpected")
+            unrecognised = ("unparsed", "unparsed_args", "unexpected", "")
             if not (got_ok == want_ok or got_ok.startswith(want_ok + ":")) and got_ok.split(":")[0] not in unrecognised:
                 run.oracle_fail("success arm of %s is `%s`, expected `%s`" % (rid, got_ok, want_ok), desc)
             if not (got_err == want_err or got_err.startswith(want_err + ":")) and got_err.split(":")[0] not in unrecognised:
@@ -81,6 +81,8 @@ def l1_oracle(pid, methods, impl, run, desc):
             b = d.get("reply %s builder" % rid, "")
             cover = ("Always" if (okm and errm) else ("Success" if okm else "Error"))
             parts = b.split(":")
+            if b in ("", "<none>"):
+                continue        # no builder recognised in this expansion: reported as a disagreement with the model, decided by L2
             if (len(parts) < 2 or parts[0] != g["handler"] or parts[1] != cover) and not (len(parts) >= 2 and parts[1] == "inconsistent"):
                 run.oracle_fail("builder of %s is `%s`, expected method `%s` requesting ReplyOn::%s" % (rid, b, g["handler"], cover), desc)
 
